@@ -2,7 +2,6 @@
 package dnsforward
 
 import (
-	"cmp"
 	"context"
 	"fmt"
 	"io"
@@ -901,27 +900,5 @@ func (s *Server) IsBlockedClient(ip netip.Addr, clientID string) (blocked bool, 
 	s.serverLock.RLock()
 	defer s.serverLock.RUnlock()
 
-	blockedByIP := false
-	if ip != (netip.Addr{}) {
-		blockedByIP, rule = s.access.isBlockedIP(ip)
-	}
-
-	allowlistMode := s.access.allowlistMode()
-	blockedByClientID := s.access.isBlockedClientID(clientID)
-
-	// Allow if at least one of the checks allows in allowlist mode, but block
-	// if at least one of the checks blocks in blocklist mode.
-	if allowlistMode && blockedByIP && blockedByClientID {
-		log.Debug("dnsforward: client %v (id %q) is not in access allowlist", ip, clientID)
-
-		// Return now without substituting the empty rule for the
-		// clientID because the rule can't be empty here.
-		return true, rule
-	} else if !allowlistMode && (blockedByIP || blockedByClientID) {
-		log.Debug("dnsforward: client %v (id %q) is in access blocklist", ip, clientID)
-
-		blocked = true
-	}
-
-	return blocked, cmp.Or(rule, clientID)
+	return s.access.isBlockedClient(ip, clientID)
 }
